@@ -798,4 +798,66 @@ theorem ow_witness_wellformed :
     Ref.tagOk, Tag.pixelData, undefinedLen, Norm.strsVrs, Norm.strVrs, C03.ps35, Syntax.explicit, Syntax.bigEndian,
     enc16, be16]
 
+/-! ### Deflated Explicit VR Little Endian
+
+The fourth writable syntax wraps the Explicit VR LE writer / reader in a deflate / inflate adapter
+(`DataRWAdapter` of the `deflate` feature, flate2). The codec is third-party code and enters as a parameter:
+`C : DeflateCodec` is *any* pair of functions with `inflate (deflate b) = b`. -/
+
+/-- the deflate layer as the model sees it: any pair of byte-string functions that are inverse one way -/
+structure DeflateCodec where
+  deflate : Bytes → Bytes
+  inflate : Bytes → Bytes
+  inverse : ∀ b, inflate (deflate b) = b
+
+/-- `write_dataset_with_ts(_options)` for Deflated Explicit VR LE: the Explicit VR LE writer through the adapter -/
+def writeDeflated (C : DeflateCodec) (strat : Strategy) (t : Elems) : Except WErr Bytes :=
+  match writeDataset .explicitLE strat t with
+  | .ok bs => .ok (C.deflate bs)
+  | .error e => .error e
+
+/-- `read_dataset_with_ts` for Deflated Explicit VR LE: the Explicit VR LE reader behind the adapter -/
+def readDeflated (C : DeflateCodec) (dict : Tag → Option VR) (raw : Bytes) : Except RdErr Elems :=
+  readDataset .explicitLE dict (C.inflate raw)
+
+/-- **Round trip in Deflated Explicit VR LE, default strategy, any nesting depth, for every codec with
+`inflate ∘ deflate = id`**: writing never fails and reading the written bytes back yields the normal form. -/
+theorem tree_rt_deflated (C : DeflateCodec) (dict : Tag → Option VR) (t : Elems)
+    (hd : Ref.dictOk .explicitLE dict = true) (hwf : Norm.WfElems .explicitLE dict t)
+    (hsorted : Ref.sortedElems t = true) :
+    ∃ raw, writeDeflated C .setUndefined t = .ok raw ∧
+      readDeflated C dict raw = .ok (Norm.normElems .explicitLE t) := by
+  obtain ⟨bs, hw, hr⟩ := tree_rt_undefined .explicitLE dict t hd hwf hsorted
+  refine ⟨C.deflate bs, ?_, ?_⟩
+  · simp only [writeDeflated, hw]
+  · simp only [readDeflated, C.inverse, hr]
+
+/-- … and with the `NoChange` strategy for trees with consistent recorded lengths -/
+theorem tree_rt_deflated_nochange (C : DeflateCodec) (dict : Tag → Option VR) (t : Elems)
+    (hd : Ref.dictOk .explicitLE dict = true) (hwf : Norm.WfElems .explicitLE dict t)
+    (hlen : Norm.LenOkElems .explicitLE dict t) (hsorted : Ref.sortedElems t = true) :
+    ∃ raw, writeDeflated C .noChange t = .ok raw ∧
+      readDeflated C dict raw = .ok (Norm.keepElems .explicitLE t) := by
+  obtain ⟨bs, hw, hr⟩ := tree_rt_nochange .explicitLE dict t hd hwf hlen hsorted
+  refine ⟨C.deflate bs, ?_, ?_⟩
+  · simp only [writeDeflated, hw]
+  · simp only [readDeflated, C.inverse, hr]
+
+def sampleDictD : Tag → Option VR := fun t => if t = ⟨0x0008, 0x0060⟩ then some .CS else none
+
+/-- the hypothesis on the codec is needed: with a "codec" that loses the stream the round trip fails
+(so the theorem above is not true for the wrong reason) -/
+theorem deflated_needs_inverse :
+    ∃ (deflate inflate : Bytes → Bytes),
+      (readDataset .explicitLE sampleDictD (inflate (deflate
+        [0x08, 0x00, 0x60, 0x00, 67, 83, 2, 0, 77, 82]))).toOption.map Elems.tokens ≠
+      (readDataset .explicitLE sampleDictD [0x08, 0x00, 0x60, 0x00, 67, 83, 2, 0, 77, 82]).toOption.map Elems.tokens := by
+  refine ⟨fun _ => [], fun b => b, ?_⟩
+  show ((readDataset .explicitLE sampleDictD []).toOption.map Elems.tokens ≠
+      (readDataset .explicitLE sampleDictD [0x08, 0x00, 0x60, 0x00, 67, 83, 2, 0, 77, 82]).toOption.map Elems.tokens)
+  decide +kernel
+
+/-- non-vacuity: the identity is a codec -/
+example : DeflateCodec := ⟨id, id, fun _ => rfl⟩
+
 end Dicom.C01
